@@ -41,6 +41,13 @@ type dscenario struct {
 
 func markerCmd(rng *rand.Rand, i int) m.Cmd {
 	k := []byte(fmt.Sprintf("e%02d", i))
+	// entries that write no user key (only the index moves): a Sync that follows must cover them all the same
+	switch rng.Intn(9) {
+	case 0:
+		return m.Cmd{T: "DUMMY"}
+	case 1: // a transaction whose executed branch is empty
+		return m.Cmd{T: "TXN", Fail: []m.Op{{T: "put", K: append(k, 'f'), V: []byte{byte(i)}}}}
+	}
 	switch rng.Intn(5) {
 	case 0: // multi-key transaction: all or nothing
 		return m.Cmd{T: "TXN", Succ: []m.Op{{T: "put", K: append(k, 'a'), V: []byte{byte(i)}}, {T: "put", K: append(k, 'b'), V: []byte{byte(i)}},
@@ -74,11 +81,23 @@ func makeScenario(rng *rand.Rand) dscenario {
 	}
 	sc.srt = fsm.SnapshotRecoveryType(rng.Intn(2))
 	sc.hostExists = rng.Intn(2) == 0
+	// one scenario in three ends with a batch of entries that write no user key, with a completed Sync before and after
+	keylessTail := len(sc.batches) >= 2 && rng.Intn(3) == 0
+	if keylessTail {
+		last := sc.batches[len(sc.batches)-1]
+		for j := range last {
+			if j%2 == 0 {
+				last[j].C = m.Cmd{T: "DUMMY"}
+			} else {
+				last[j].C = m.Cmd{T: "TXN", Fail: []m.Op{{T: "put", K: []byte("never"), V: []byte{1}}}}
+			}
+		}
+	}
 	sc.steps = append(sc.steps, dstep{kind: "open"})
 	recovered := false
 	for b := range sc.batches {
 		sc.steps = append(sc.steps, dstep{kind: "update", batch: b})
-		if rng.Intn(2) == 0 {
+		if rng.Intn(2) == 0 || (keylessTail && b >= len(sc.batches)-2) {
 			sc.steps = append(sc.steps, dstep{kind: "sync"})
 		}
 		if !recovered && b+1 < len(sc.batches) && rng.Intn(3) == 0 {
